@@ -9,6 +9,7 @@ CONSTANTS
   InitSeq <- I_Few
   InitPatterns <- IP_Few
   SolidInits <- SI_Few
+  GuessShifts = {1}
   GridProblems <- NoProblems
   GridStates <- NoStates
   MaxChain = 0
